@@ -22,6 +22,7 @@ type Analysis struct {
 	// escapes: module functions referenced as values (method values, function arguments): they have callers the
 	// syntactic call count does not see
 	escapes map[*FuncInfo]bool
+	roleTest map[*FuncInfo]bool
 	hoCache map[*FuncInfo]bool
 	Prog    *Program
 	Sites   map[string]*Site // key: fn|pos|kind|callee|loc
@@ -534,6 +535,13 @@ func (a *Analysis) callCtx(fn *FuncInfo, args []*Term, st *State) []Lit {
 	var out []Lit
 	if fn.Pkg.PkgPath == modPath && (fn.Recv == "DBFT" || fn.Recv == "Context") {
 		for _, at := range stableAtoms() {
+			if v, ok := st.F.known(at); ok {
+				out = append(out, Lit{at, v})
+			}
+		}
+		// a callee that asks "am I the primary?" itself gets the caller's answer
+		if a.testsRole(fn) {
+			at := mkAtom("eq", tMyIndex, tPrimaryIndex)
 			if v, ok := st.F.known(at); ok {
 				out = append(out, Lit{at, v})
 			}
@@ -1170,4 +1178,43 @@ func localFuncTargets(a *Analysis, fn *FuncInfo, v *types.Var) ([]*FuncInfo, boo
 		return true
 	})
 	return out, ok && found
+}
+
+// testsRole: fn's own body asks whether this node is the view's primary (a pure predicate reading both indices, or a
+// direct comparison).
+func (a *Analysis) testsRole(fn *FuncInfo) bool {
+	if a.roleTest == nil {
+		a.roleTest = map[*FuncInfo]bool{}
+	}
+	if v, ok := a.roleTest[fn]; ok {
+		return v
+	}
+	a.roleTest[fn] = false
+	found := false
+	w := &Walker{A: a, Fn: fn, info: fn.Pkg.TypesInfo}
+	ast.Inspect(fn.Decl.Body, func(n ast.Node) bool {
+		call, ok := n.(*ast.CallExpr)
+		if !ok || found {
+			return !found
+		}
+		t := w.staticCallee(call)
+		if t == nil || !a.isPure(t) {
+			return true
+		}
+		mi, pi := false, false
+		for _, r := range a.readsOf(t) {
+			if r == "ctx.MyIndex" {
+				mi = true
+			}
+			if r == "ctx.PrimaryIndex" {
+				pi = true
+			}
+		}
+		if mi && pi && a.isPurePredicate(t) {
+			found = true
+		}
+		return true
+	})
+	a.roleTest[fn] = found
+	return found
 }
